@@ -930,3 +930,34 @@ func TestSignatureLeadingZero(t *testing.T) {
 		P.ClassN("leading-zero-signature:"+string(alg), found)
 	}
 }
+
+// TestRoundSizes: tokens whose sealed form is EXACTLY a round number of bytes - every power of two from 1 KiB to
+// 4 MiB (16 MiB in the thorough tier), the byte before and after, the decimal round numbers - where size limits,
+// read buffers and length prefixes have their edges. For each: the address clause, and the token followed by one
+// byte, a newline, a kilobyte or a second copy of itself, through every buffered and streaming decoder and every
+// source type: what is accepted is addressed by the CID that comes back, whatever the size.
+func TestRoundSizes(t *testing.T) {
+	var sizes []int
+	top := 22
+	if h.Thorough() {
+		top = 24
+	}
+	for k := 10; k <= top; k++ {
+		sizes = append(sizes, 1<<k-1, 1<<k, 1<<k+1)
+	}
+	sizes = append(sizes, 1000, 10000, 100000, 1000000, 65535, 65536+9, 1<<20-9, 1<<20+9)
+	n := 0
+	for _, size := range sizes {
+		d, _, ok := tok.PaddedDlg(size)
+		if !ok {
+			P.Class("round-size:not-constructible")
+			continue
+		}
+		addrProp.One(t, AddrCase{Tok: d})
+		for _, kind := range []string{"trailing-byte", "trailing-newline", "trailing-kilobyte", "trailing-token"} {
+			reencProp.One(t, ReencCase{Tok: d, Kind: kind})
+		}
+		n++
+	}
+	P.SetExtra("round_size_tokens", n)
+}
